@@ -155,7 +155,7 @@ func genFileDoc(r *simrt.Rng, now0 int64, forRestart bool) (ydoc, *FileExpect) {
 	d := ydoc{scenario: &scen, def: ystage{fields: map[string]string{}}, limits: map[string]string{}}
 	// defaults: any subset of fields
 	defVals := map[string]string{
-		"rate": fmt.Sprintf("%d/%dms", 1+r.Intn(4), simrt.Pick(r, 20, 50, 100)), "distribution": "none", "jitter": "0",
+		"rate": fmt.Sprintf("%d/%dms", 1+r.Intn(4), simrt.Pick(r, 20, 50, 100)), "distribution": "none", "jitter": simrt.Pick(r, "0", "0", "50"),
 		"start-rate": fmt.Sprintf("%d/100ms", r.Intn(3)), "end-rate": fmt.Sprintf("%d/100ms", 4+r.Intn(4)),
 		"stages": "0s:1,200ms:4", "iteration-frequency": simrt.Pick(r, "50ms", "100ms"), "volume": "200", "repeat": "2s",
 		"peak": "1s", "weights": `""`, "standard-deviation": "400ms", "concurrency": fmt.Sprint(1 + r.Intn(3)),
@@ -231,6 +231,9 @@ func genFileDoc(r *simrt.Rng, now0 int64, forRestart bool) (ydoc, *FileExpect) {
 			var iv int64
 			fmt.Sscanf(eff["rate"], "%d/%dms", &nn, &iv)
 			fe.TickNs, fe.TickRate = iv*ms, nn
+			if eff["jitter"] != "0" {
+				fe.TickNs, fe.TickRate = 0, 0 // inherits the default section's jitter: per-tick values vary
+			}
 		case "users":
 			fmt.Sscan(eff["concurrency"], &fe.UsersConc)
 		}
